@@ -11,6 +11,7 @@ import (
 	"os"
 	"os/exec"
 	"strings"
+	"syscall"
 	"time"
 
 	"github.com/google/pprof/internal/verifsim/simrt"
@@ -26,6 +27,10 @@ var (
 	ErrDot       = exec.ErrDot
 	ErrWaitDelay = exec.ErrWaitDelay
 )
+
+// Die, returned by a LineSession as an output line, makes the scripted
+// process crash at that point of its answer.
+const Die = "\x00<process dies>"
 
 // LineSession is an interactive line-oriented tool (addr2line, llvm-symbolizer).
 // Line must be a pure function of its input: it may be called from any task.
@@ -151,7 +156,18 @@ type Cmd struct {
 	outPipe  *pipeR
 	sess     LineSession
 	waitErr  error
+	died     bool // a session answered Die
 }
+
+// The scripted process's state belongs to the simulated kernel, not to the
+// program under test: like the rest of the kernel it is invisible to the
+// race detector.
+//
+//go:norace
+func (c *Cmd) setDied() { c.died = true }
+
+//go:norace
+func (c *Cmd) hasDied() bool { return c.died }
 
 func Command(name string, arg ...string) *Cmd {
 	return &Cmd{Path: name, Args: append([]string{name}, arg...)}
@@ -232,7 +248,7 @@ func (c *Cmd) Wait() error {
 		if c.outPipe != nil {
 			c.outPipe.close()
 		}
-		if c.fault == XExit1 {
+		if c.fault == XExit1 || c.hasDied() {
 			return &exitErr{1}
 		}
 		return nil
@@ -429,6 +445,9 @@ func (p *pipeW) Write(b []byte) (int, error) {
 	if c == nil {
 		return n, nil
 	}
+	if c.hasDied() {
+		return 0, syscall.EPIPE
+	}
 	for {
 		line, rest, ok := p.takeLine(b)
 		if !ok {
@@ -440,6 +459,13 @@ func (p *pipeW) Write(b []byte) (int, error) {
 			p.out.push("\x00?? garbage")
 		case c.sess != nil:
 			for _, o := range c.sess.Line(line) {
+				if o == Die {
+					// the tool crashes on this request: its stdout ends here and
+					// whatever is written to it afterwards meets a broken pipe
+					c.setDied()
+					p.out.close()
+					return n, nil
+				}
 				p.out.push(o)
 			}
 		}
